@@ -1630,6 +1630,11 @@ static size_t produceResultArrayBinary(scpi_t * context, const void * array, siz
                 return 0;
         }
 
+        if (count == 0) {
+            /* no element follows: complete the empty block so that it counts as a result item */
+            return result + SCPI_ResultArbitraryBlockData(context, NULL, 0);
+        }
+
         switch (item_size) {
             case 1:
                 result += SCPI_ResultArbitraryBlockData(context, array, count);
